@@ -237,7 +237,7 @@ def c10(tier, seed):
                             "equilibration on and at least one non-scalar cone present (counted by the recorder)",
                     "samples": smp, "exhaustive": False,
                     "trusted_base": ["TLC", "FloatOrd limb comparisons", "observer products c*d_i*v*d_j in f64"]}
-    res.assumptions = ["settings domain equilibrate_min_scaling <= 1 <= equilibrate_max_scaling"]
+    res.assumptions = ["settings domain equilibrate_min_scaling <= equilibrate_max_scaling (windows that do not contain 1 included)"]
     return res
 
 
